@@ -108,6 +108,8 @@ def check_save_conversions(prog, rep, rule='R1.1', namespaces=ARCHIVE_NS):
 
 
 def run(prog, rep):
+    from rules import json_ownership
+    json_ownership.check(prog, rep, 'R1.11')
     from rules import narrow_counters
     narrow_counters.check(prog, rep, 'R1.10')
     from rules import csv_options
